@@ -173,7 +173,11 @@ def modifies_known_mutable(obj: t.Any, attr: str) -> bool:
     False
     """
     for typespec, unsafe in _mutable_spec:
-        if isinstance(obj, typespec):
+        # The type itself gives access to the same method unbound, for
+        # example ``dict.update(d, ...)`` through the ``dict`` global.
+        if isinstance(obj, typespec) or (
+            isinstance(obj, type) and issubclass(obj, typespec)
+        ):
             return attr in unsafe
     return False
 
